@@ -130,6 +130,11 @@ def rnum(rng, lo=1, hi=999):
 def tagged_values(rng, side):
     base = 100 if side == "s" else 500
     n = rng.choice([1, 1, 2, 3, 3, 24])   # 24 events: a text of several hundred characters
+    if rng.random() < 0.12:
+        # two or three BPM entries written for one and the same beat (each counts for the displayed range)
+        vals = [base + rng.randint(0, 399) for _ in range(rng.choice([2, 3]))]
+        dup = ",".join(f"{b}={v}.000" for b, v in zip(rng.choice([["0.000", "0.000", "4.000"], ["0", "0.000", "0.0"], ["4.000", "4.000", "4.000"]]), vals))
+        return dict(_tv_rest(rng, base), BPMS=dup)
     if n > 1 and rng.random() < 0.3:
         v = base + rng.randint(0, 399)
         bpms = ",".join(f"{4 * i}.000={v}{rng.choice(['', '.0', '.000'])}" for i in range(n))  # several entries, one value
@@ -137,6 +142,17 @@ def tagged_values(rng, side):
         bpms = ",".join(f"{4 * i}.000={base + rng.randint(0, 399)}.{rng.randint(0, 999):03d}" for i in range(n))
     return {
         "BPMS": bpms,
+        "STOPS": f"{rng.randint(1, 9)}.000=0.{base + rng.randint(0, 99)}",
+        "DELAYS": f"{rng.randint(1, 9)}.500=1.{base + rng.randint(0, 99)}",
+        "WARPS": f"{rng.randint(10, 19)}.000=2.{base // 100}00",
+        "OFFSET": f"{'-' if rng.random() < 0.3 else ''}0.{base + rng.randint(0, 99)}",
+        "TIMESIGNATURES": "0.000=4=4", "TICKCOUNTS": "0.000=4", "COMBOS": "0.000=1",
+        "SPEEDS": "0.000=1.000=0.000=0", "SCROLLS": "0.000=1.000", "FAKES": "4.000=1.000", "LABELS": "0.000=Song Start",
+    }
+
+
+def _tv_rest(rng, base):
+    return {
         "STOPS": f"{rng.randint(1, 9)}.000=0.{base + rng.randint(0, 99)}",
         "DELAYS": f"{rng.randint(1, 9)}.500=1.{base + rng.randint(0, 99)}",
         "WARPS": f"{rng.randint(10, 19)}.000=2.{base // 100}00",
@@ -225,7 +241,7 @@ def run_one(ctx, case):
                     # blanks only: not an empty value (it makes the chart the source like any other text), no events
                     chart[key] = rng.choice([" ", "\n", "\t \n"])
                     ctx.feat("chart_timing_value_of_blanks_only")
-        for key in ("ATTACKS", "CHARTNAME", "CREDIT", "MUSIC", "KEYSOUNDS"):
+        for key in ("ATTACKS", "CHARTNAME", "CREDIT", "MUSIC", "KEYSOUNDS", "FREEZES", "ANIMATIONS", "STOP", "BPM"):
             if rng.random() < 0.3:
                 chart[key] = rng.choice(["TIME=1.000:END=2.000:MODS=*2 drunk", "x", "0.000=1.000"])  # never a trigger
                 ctx.feat("non_timing_chart_property_set")
